@@ -143,6 +143,8 @@ def grid_cases(draw):
 def check_grid(case, ctx):
     ints = build.plain_flag(case)
     region = build.plain(tuple(case["region"]), ints)
+    region = build.numpy_ints(region, case)
+    rpy = tuple(case["region"]) if not ints else build.plain(tuple(case["region"]), True)  # the same bounds as plain Python numbers, for the oracle's exact arithmetic
     kwargs = dict(adjust=case["adjust"], pixel_register=case["pixel"], meshgrid=case["meshgrid"])
     sp = case.get("spacing")
     if "shape" in case:
@@ -163,16 +165,17 @@ def check_grid(case, ctx):
     keep = [np.array(c, copy=True) for c in first]
     for c in first:
         if isinstance(c, np.ndarray) and c.flags.writeable:
-            c *= -3.5
+            np.multiply(c, -3.5, out=c, casting="unsafe")
     coords = vd.grid_coordinates(region, **kwargs)
     ctx.check(len(coords) == len(keep) and all(np.array_equal(a, b) for a, b in zip(coords, keep)),
               "a second grid_coordinates call with the same arguments returns different coordinates after the first result was modified in place")
     ctx.check(isinstance(coords, tuple), "grid_coordinates must return a tuple")
     n_extra = 0 if case["extra"] is None else (len(case["extra"]) if isinstance(case["extra"], list) else 1)
     ctx.check(len(coords) == 2 + n_extra, "expected %d arrays, got %d", 2 + n_extra, len(coords))
-    east_models = line_models(region[0], region[1], size=size_e, spacing=sp_e, adjust=case["adjust"], pixel=case["pixel"])
-    north_models = line_models(region[2], region[3], size=size_n, spacing=sp_n, adjust=case["adjust"], pixel=case["pixel"])
+    east_models = line_models(rpy[0], rpy[1], size=size_e, spacing=sp_e, adjust=case["adjust"], pixel=case["pixel"])
+    north_models = line_models(rpy[2], rpy[3], size=size_n, spacing=sp_n, adjust=case["adjust"], pixel=case["pixel"])
     easting, northing = np.asarray(coords[0]), np.asarray(coords[1])
+    ctx.check(easting.dtype.kind == "f" and northing.dtype.kind == "f", "grid_coordinates returned %s / %s arrays for the region %r: nodes are real numbers (start + k * step)", easting.dtype, northing.dtype, region)
     if case["meshgrid"]:
         ctx.check(easting.ndim == 2 and easting.shape == northing.shape,
                   "meshgrid arrays must be 2-D of equal shape, got %s and %s", easting.shape, northing.shape)
@@ -183,8 +186,8 @@ def check_grid(case, ctx):
     else:
         ctx.check(easting.ndim == 1 and northing.ndim == 1, "meshgrid=False must return 1-D vectors")
         east1d, north1d = easting, northing
-    ke, why_e = match_line(east1d, east_models, region[0], region[1])
-    kn, why_n = match_line(north1d, north_models, region[2], region[3])
+    ke, why_e = match_line(east1d, east_models, rpy[0], rpy[1])
+    kn, why_n = match_line(north1d, north_models, rpy[2], rpy[3])
     if ke is None:
         raise Violation("easting nodes of grid_coordinates(%r, %r) do not match the model for the east direction: %s"
                         % (region, kwargs, why_e))
@@ -208,13 +211,13 @@ def check_grid(case, ctx):
         # shape_to_spacing inverts the shape
         ok_n = case["pixel"] or size_n > 1
         ok_e = case["pixel"] or size_e > 1
-        if ok_n and ok_e and region[1] > region[0] and region[3] > region[2]:
+        if ok_n and ok_e and rpy[1] > rpy[0] and rpy[3] > rpy[2]:
             spn, spe = vd.coordinates.shape_to_spacing(region, tuple(case["shape"]), pixel_register=case["pixel"])
             div_n = size_n if case["pixel"] else size_n - 1
             div_e = size_e if case["pixel"] else size_e - 1
-            ctx.check(abs(exact(spn, "shape_to_spacing result") - (Fraction(region[3]) - Fraction(region[2])) / div_n)
+            ctx.check(abs(exact(spn, "shape_to_spacing result") - (Fraction(rpy[3]) - Fraction(rpy[2])) / div_n)
                       <= Fraction(4 * EPS * abs(float(spn))), "shape_to_spacing north %r wrong", spn)
-            ctx.check(abs(exact(spe, "shape_to_spacing result") - (Fraction(region[1]) - Fraction(region[0])) / div_e)
+            ctx.check(abs(exact(spe, "shape_to_spacing result") - (Fraction(rpy[1]) - Fraction(rpy[0])) / div_e)
                       <= Fraction(4 * EPS * abs(float(spe))), "shape_to_spacing east %r wrong", spe)
             back = vd.grid_coordinates(region, spacing=(spn, spe), pixel_register=case["pixel"], meshgrid=False)
             ctx.check((back[1].size, back[0].size) == tuple(case["shape"]),
